@@ -3,7 +3,8 @@ Proof: lean/Props/C15.lean (model lean/PydapModel/Handler.lean).  Tie: outcome o
 `Request.blank(path?query).get_response(BaseHandler(ds))` — exception class / status / response kind / whole body —
 vs `Handler.handle` for generated datasets, valid CEs, fault-injected CEs and paths with / without / unknown
 extension.  Oracle: the property read directly off the webob response (no model), for the bare handler and for the
-handler behind the server-side-function middleware, with and without gzip."""
+handler behind the server-side-function middleware, with and without gzip, and for the same dataset with its
+sequences behind lazy row streams; histories of requests on several datasets held by one process (explore_histories)."""
 import common
 import handler_gen as G
 from common import hexb
@@ -44,16 +45,8 @@ def canon_impl(res):
             return "ok:other"
         if res["body_exc"]:
             return "ok:%s:raises:%s" % (kind, res["body_exc"])
-        body = res["body"]
-        if kind == "dods":
-            try:
-                head, _, payload = body.partition(b"Data:\n")
-                _, decl, _ = G.parse_dds(head.decode("ascii"))
-                vals = G.decode_dods_values(decl, payload)
-                body = head + b"Data:\n" + G.wire_text(vals).encode()
-            except Exception as e:
-                return "ok:dods:undecodable:%s" % type(e).__name__
-        return "ok:%s:%s" % (kind, hexb(body))
+        # the data response is compared byte for byte too: declaration, `Data:\n`, the XDR payload
+        return "ok:%s:%s" % (kind, hexb(res["body"]))
     return "status:%s" % res["status"]
 
 
@@ -129,6 +122,46 @@ def judge(ctx, res, path, query, valid, where, case, cls=None, hs_cls=None):
     return "other"
 
 
+
+def holds_alone(c):
+    """the single-request case `c` served by a freshly built application on freshly imported pydap modules: True when
+    the property holds then (the failure seen in the run depended on what the process had served before)"""
+    from collections import Counter
+    G.fresh_pydap()
+    BaseHandler, SSF = load()
+    spec = spec_from_sexp(c["dataset"])
+    ds = G.build(spec)
+    app = {"handler": lambda: BaseHandler(ds), "ssf": lambda: SSF(BaseHandler(ds)), "gzip": lambda: BaseHandler(ds, gzip=True),
+           "lazy": lambda: BaseHandler(G.build(spec, lazy="plain"))}[c["app"]]()
+    res = G.run_request(app, c["path"], c["query"])
+    q = common.Ctx("C15", "quick", 0)
+    q.findings = []
+    q.notes_count = Counter()
+    judge(q, res, c["path"], c["query"], c["class"].startswith(("valid/known-ext", "valid/other-ext")), c["app"], c)
+    return not q.oracle_failures
+
+
+def settle(ctx, n0, case, budget):
+    """failures recorded since position n0 belong to the single-request `case`: when the request is answered correctly by a
+    fresh process, say so and rank the case behind the self-contained ones (its replay would hold)"""
+    if len(ctx.oracle_failures) == n0:
+        return False
+    if budget[0] <= 0:
+        for f in ctx.oracle_failures[n0:]:        # not re-checked: ranked behind the cases known to replay on their own
+            f["size"] += 5 * 10 ** 5
+        return False
+    budget[0] -= 1
+    try:
+        alone = holds_alone(case)
+    except Exception:
+        alone = False
+    if alone:
+        for f in ctx.oracle_failures[n0:]:
+            f["what"] += " - only after what this process had served before: a fresh process answers the same request correctly"
+            f["size"] += 10 ** 6
+    return True
+
+
 def table_cases(ctx):
     """the response table and the error-document shape of the model vs the source"""
     BaseHandler, _ = load()
@@ -190,11 +223,16 @@ def explore(ctx, tier, search=False):
         case = {"app": "handler", "path": path, "query": q, "dataset": sx0, "class": "reached/fixed"}
         judge(ctx, res, path, q, False, "handler", case)
         exc_cases.append(("h-exc %s %s %s" % (sx0, G.hx(path), G.hx(q)), res, case))
+    settle_budget = [40]
     for di in range(n_ds):
+        BaseHandler, SSF = load()      # (the modules may have been imported anew by `settle`)
         spec = G.gen_dataset(rng, ambiguous=rng.random() < 0.3)
         sx = G.ds_sexp(spec)
         ds = G.build(spec)
         apps = {"handler": BaseHandler(ds), "ssf": SSF(BaseHandler(ds)), "gzip": BaseHandler(ds, gzip=True)}
+        if any(v["k"] == "sq" and v["rows"] for v in spec["vars"]):
+            # the same dataset with its sequences behind lazy row streams (IterData): filters run when the stream is read
+            apps["lazy"] = BaseHandler(G.build(spec, lazy="plain"))
         reqs = []
         for _ in range(10):
             q, _exp = G.gen_valid_ce(rng, spec)
@@ -217,19 +255,25 @@ def explore(ctx, tier, search=False):
             valid = kind == "valid" and pcls in ("known-ext", "other-ext")
             hs_cls = None      # the finding HS_KEY is repaired: a 200 whose body raises is a violation wherever it occurs
             case = {"app": "handler", "path": path, "query": q, "dataset": sx, "class": kind + "/" + pcls}
+            n0 = len(ctx.oracle_failures)
             verdict = judge(ctx, res, path, q, valid, "handler", case, hs_cls=hs_cls)
+            reloaded = settle(ctx, n0, case, settle_budget)
             impl = canon_impl(res)
             cases.append(("h-handle %s %s %s" % (sx, G.hx(path), G.hx(q)), impl, case))
             exc_cases.append(("h-exc %s %s %s" % (sx, G.hx(path), G.hx(q)), res, case))
             ctx.count((sx, path, q), kind != "valid" or bool(q), tag="%s|%s|%s" % (kind, pcls, verdict),
                       sample={"path": path, "query": q, "outcome": impl[:60]})
             # the same request behind the function middleware and with gzip (oracle only)
-            for name in ("ssf", "gzip"):
+            for name in ("ssf", "gzip", "lazy"):
                 if name == "gzip" and rng.random() < 0.6:
+                    continue
+                if name == "lazy" and (name not in apps or rng.random() < 0.4):
                     continue
                 r2 = G.run_request(apps[name], path, q)
                 c2 = dict(case, app=name)
+                n0 = len(ctx.oracle_failures)
                 v2 = judge(ctx, r2, path, q, valid, name, c2, cls=SSF_ESCAPE if name == "ssf" else None, hs_cls=hs_cls)
+                reloaded = settle(ctx, n0, c2, settle_budget) or reloaded
                 ctx.count((name, sx, path, q), True, tag="%s:%s|%s" % (name, kind, v2))
     # correspondence: the model may leave the inside of the guarded region unresolved ("answered"):
     # then only the fact that the application answered is compared
@@ -273,21 +317,183 @@ def explore(ctx, tier, search=False):
     ctx.notes_count.clear()
 
 
+
+# ------------------------------------------------------------------------------------------------ histories
+def run_history(handlers, reqs, directory, upto=None):
+    """serve `reqs` ([key, path, query, valid]) one after the other from handlers ([key, backend, spec]) that are all
+    built first and live in this process together, on freshly imported pydap modules; returns the responses"""
+    G.fresh_pydap()
+    # a handler whose key ends in "'" replaces the handler of the same name while the process runs (a CSV file rewritten
+    # with other column types, a dataset swapped): it is built when it is first asked, the one it replaces is not asked again
+    apps = {key: G.build_app(backend, spec, directory) for key, backend, spec in handlers if not key.endswith("'")}
+    late = {key: (backend, spec) for key, backend, spec in handlers if key.endswith("'")}
+    out = []
+    for key, path, q, _valid in reqs[: (upto + 1) if upto is not None else None]:
+        if key not in apps:
+            apps[key] = G.build_app(*late[key], directory)
+        out.append(G.run_request(apps[key], path, q))
+    return out
+
+
+def history_case(handlers, reqs, k):
+    key, path, q, valid = reqs[k]
+    spec = [h for h in handlers if h[0] == key][0][2]
+    return {"app": "history", "handlers": [[h[0], h[1], G.ds_sexp(h[2])] for h in handlers],
+            "requests": [list(r) for r in reqs[: k + 1]], "index": k, "path": path, "query": q, "dataset": G.ds_sexp(spec),
+            "class": ("valid" if valid else "faulty") + "/history"}
+
+
+def fails_alone(handlers, reqs, idx, directory):
+    """does the last of the requests `idx` (a sub-history, in order) still fail the oracle when served on its own?"""
+    from collections import Counter
+    sub = [reqs[i] for i in idx]
+    res = run_history(handlers, sub, directory)[-1]
+    q = common.Ctx("C15", "quick", 0)
+    q.findings = []
+    q.notes_count = Counter()
+    judge(q, res, sub[-1][1], sub[-1][2], sub[-1][3], "history", {"class": "history"})
+    return bool(q.oracle_failures)
+
+
+def explore_histories(ctx, tier, search=False):
+    """several datasets in one process: handlers built together, requests served alternately, every body read to its
+    end; the oracle is `judge`, the tie is the whole history against the model of a process (`h-proc`)"""
+    import shutil
+    import tempfile
+    from collections import Counter
+    if not hasattr(ctx, "notes_count"):
+        ctx.notes_count = Counter()
+    rng = ctx.rng("histories" + ("-search" if search else ""))
+    n_hist = 60 if tier == "quick" else 400
+    directory = tempfile.mkdtemp(prefix="c15-hist-")
+    lines = []
+    shrunk = [0]
+    try:
+        for hi in range(n_hist):
+            fam = G.gen_family(rng)
+            handlers = [(key, backend, spec) for key, backend, spec in fam]
+            by_key = {h[0]: h for h in handlers}
+            reqs = []
+            last = None
+            n_req = rng.randint(8, 16)
+            # in every third history one dataset is replaced while the process runs: same key, same file name / dataset
+            # name, other column types and records (for CSV: the file is rewritten and opened again, as DapServer does)
+            switch = None
+            if hi % 3 == 2:
+                old_key, old_backend, old_spec = rng.choice(handlers)
+                new_spec = G.gen_csv_spec(rng, old_spec["name"].split("%2E")[0]) if old_backend == "csv" else None
+                if new_spec is None:
+                    for _try in range(50):
+                        new_spec = G.gen_dataset(rng)
+                        if any(v["k"] == "sq" and v["rows"] for v in new_spec["vars"]):
+                            break
+                    new_spec["name"] = old_spec["name"]
+                handlers.append((old_key + "'", old_backend if old_backend == "csv" else rng.choice(["mem", "lazy", "ranged"]), new_spec))
+                by_key[old_key + "'"] = handlers[-1]
+                switch = (rng.randint(2, n_req - 2), old_key)
+            for ri in range(n_req):
+                live = [h[0] for h in handlers if not h[0].endswith("'")]
+                if switch:
+                    live = [k_ for k_ in live if k_ != switch[1]] + [switch[1] if ri < switch[0] else switch[1] + "'"]
+                key = rng.choice([k_ for k_ in live if k_ != last] or [last]) if rng.random() < 0.85 else rng.choice(live)
+                last = key
+                _, backend, spec = by_key[key]
+                for _try in range(30):
+                    q, _exp = G.gen_valid_ce(rng, spec)
+                    if backend != "ranged" or not any(c in q for c in "&<>=!"):
+                        break
+                else:
+                    q = ""
+                valid = True
+                if rng.random() < 0.15:
+                    q = G.inject_fault(rng, spec, q, rng.choice(G.FAULT_KINDS))
+                    valid = False
+                    if any(ord(ch) > 126 or ord(ch) < 33 or ch == "#" for ch in q):
+                        continue
+                ext = rng.choice(["dods", "dods", "dods", "dods", "ascii", "ascii", "dds", "dds", "das"])
+                reqs.append((key, G.request_path(backend, spec, ext), q, valid))
+            results = run_history(handlers, reqs, directory)
+            impl = []
+            for k, ((key, path, q, valid), res) in enumerate(zip(reqs, results)):
+                if not res["sent"]:
+                    impl.append(None)
+                    continue
+                probe = common.Ctx("C15", "quick", 0)
+                probe.findings = []
+                probe.notes_count = Counter()
+                verdict = judge(probe, res, path, q, valid, "history", {"class": "history"})
+                if probe.oracle_failures:
+                    # record the smallest sub-history that still fails on its own (the request alone, a pair, the prefix)
+                    idx = None
+                    shrunk[0] += 1
+                    for cand in ([[k]] + [[j, k] for j in range(k)]) if shrunk[0] <= 8 else []:   # (only the first few failures are minimised)
+                        if fails_alone(handlers, reqs, cand, directory):
+                            idx = cand
+                            break
+                    sub = [reqs[i] for i in idx] if idx else list(reqs[: k + 1])
+                    used = {r[0] for r in sub}
+                    case = history_case([h for h in handlers if h[0] in used], sub, len(sub) - 1)
+                    for f in probe.oracle_failures:
+                        ctx.oracle_fail("history of %d request(s) on %d dataset(s) in one process: %s" % (len(sub), len(used), f["what"]),
+                                        case, f["observed"], f["expected"], size=len(repr(case)))
+                impl.append(canon_impl(res))
+                ctx.count(("history", hi, k, key, path, q), True, tag="history:%s|%s|%s|%s" % (
+                    by_key[key][1], "valid" if valid else "faulty", G.ext_of(path), verdict),
+                    sample={"history": hi, "backend": by_key[key][1], "path": path, "query": q})
+            kept = [(r, i) for r, i in zip(reqs, impl) if i is not None]
+            ctx.tags["history:backends=%s%s" % ("+".join(sorted(h[1] for h in handlers if not h[0].endswith("'"))),
+                                                  " (one replaced while running)" if switch else "")] += 1
+            line = "h-proc (%s) (%s)" % (" ".join("(%s %s)" % (G.hx(h[0]), G.ds_sexp(h[2])) for h in handlers),
+                                         " ".join("(%s %s %s)" % (G.hx(r[0]), G.hx(r[1]), G.hx(r[2])) for r, _ in kept))
+            lines.append((line, [i for _, i in kept], {"history": hi, "handlers": [[h[0], h[1], G.ds_sexp(h[2])] for h in handlers],
+                                                       "requests": [list(r) for r, _ in kept]}))
+    finally:
+        shutil.rmtree(directory, ignore_errors=True)
+        G.fresh_pydap()
+    hist_tags = {k: v for k, v in ctx.tags.items() if k.startswith("history:")}
+    ctx.notes.append("histories%s: %d histories, %d requests; per history: %s; per request (backend|valid|ext|verdict): %s" % (
+        " (search)" if search else "", len(lines), sum(len(l[1]) for l in lines),
+        ", ".join("%s: %d" % (k[len("history:backends="):], v) for k, v in sorted(hist_tags.items()) if k.startswith("history:backends=")),
+        ", ".join("%s: %d" % (k[len("history:"):], v) for k, v in sorted(hist_tags.items(), key=lambda kv: -kv[1])
+                  if not k.startswith("history:backends="))[:1500]))
+    outs = common.run_driver([l[0] for l in lines])
+    adj = []
+    for (line, impl, meta), mod in zip(lines, outs):
+        mods = mod.split(";") if mod else []
+        if len(mods) == len(impl):
+            impl = ["answered" if m == "answered" and not i.startswith("escaped") and not i.startswith("status") else i
+                    for m, i in zip(mods, impl)]
+            # point at the first request whose answer differs
+            bad = [k for k, (m, i) in enumerate(zip(mods, impl)) if m != i]
+            if bad:
+                meta = dict(meta, first_difference=bad[0], request=meta["requests"][bad[0]])
+        adj.append((line, ";".join(impl), meta))
+    ctx.correspond("histories: several datasets served alternately by one process vs the process model (run)", adj)
+
+
 def run(ctx):
     ctx.rule = ("per generated dataset (arrays, structures, grids, flat sequences): 10 valid CEs and 2..6 CEs per fault "
                 "kind (unknown variable, non-numeric / over-long / negative / inverted / out-of-range hyperslab, too many "
                 "indices, unbalanced brackets or parentheses, unknown function, wrong operand type, operands that are not "
                 "Python literals, bad operator, function call combined with a faulty clause or argument, bad paths through "
                 "the nested structure, percent escapes, dap4.ce, byte-level mutation) x paths with known / unmodelled / no / unknown extension; a case is "
-                "non-trivial unless it is the valid empty query; distinct by (dataset, path, query)")
+                "non-trivial unless it is the valid empty query; distinct by (dataset, path, query); "
+                "histories: 2..4 datasets held by handlers of one process (in-memory, lazy IterData, lazy with a record range, CSV files), "
+                "same dataset name and ids drawn from the same pool with other types / shapes / record counts, 8..16 requests "
+                "(.dods .ascii .dds .das, 15 % fault-injected) served alternately, each body read to its end")
     ctx.assumptions = ["webob Request/Response plumbing is trusted; the body is read through Response.body",
                        "inside the guarded region the model leaves comparisons of unlike types, operands that are not literals, paths "
                        "through base variables and odd record ranges unresolved (outcome `answered`): containment does not depend "
                        "on them; hyperslabs on arrays and grids are resolved (check_hyperslab)"]
     ctx.proof_phase()
     table_cases(ctx)
+    explore_histories(ctx, ctx.tier)
     explore(ctx, ctx.tier)
-    return ctx.finish(search=lambda c: explore(c, "thorough", search=True), witnesses={SSF_ESCAPE: ssf_witness})
+
+    def search(c):
+        explore_histories(c, "thorough", search=True)
+        explore(c, "thorough", search=True)
+    return ctx.finish(search=search, witnesses={SSF_ESCAPE: ssf_witness})
 
 
 def ssf_witness():
@@ -305,9 +511,31 @@ def replay(payload):
         print("nothing to replay: %s" % payload.get("no_longer_checks"))
         return False
     c = f["case"]
+    if c.get("app") == "history":
+        import shutil
+        import tempfile
+        from collections import Counter
+        directory = tempfile.mkdtemp(prefix="c15-replay-")
+        try:
+            handlers = [(k, b, spec_from_sexp(sx)) for k, b, sx in c["handlers"]]
+            reqs = [tuple(r) for r in c["requests"]]
+            results = run_history(handlers, reqs, directory)
+        finally:
+            shutil.rmtree(directory, ignore_errors=True)
+        for (key, path, q, valid), res in zip(reqs, results):
+            print("request %s?%s on %s (%s) -> exc=%s status=%s description=%s body_exc=%s" % (
+                path, q, key, [h[1] for h in handlers if h[0] == key][0], res["exc"], res["status"], res["cdesc"], res["body_exc"]))
+        qc = common.Ctx("C15", "quick", 0)
+        qc.findings = []
+        qc.notes_count = Counter()
+        judge(qc, results[-1], reqs[-1][1], reqs[-1][2], reqs[-1][3], "history", c)
+        for fl in qc.oracle_failures:
+            print("  fails:", fl["what"])
+        return not qc.oracle_failures
     spec = spec_from_sexp(c["dataset"])
     ds = G.build(spec)
-    app = {"handler": lambda: BaseHandler(ds), "ssf": lambda: SSF(BaseHandler(ds)), "gzip": lambda: BaseHandler(ds, gzip=True)}[c["app"]]()
+    app = {"handler": lambda: BaseHandler(ds), "ssf": lambda: SSF(BaseHandler(ds)), "gzip": lambda: BaseHandler(ds, gzip=True),
+           "lazy": lambda: BaseHandler(G.build(spec, lazy="plain"))}[c["app"]]()
     res = G.run_request(app, c["path"], c["query"])
     print("request %s?%s on app=%s -> exc=%s status=%s description=%s body_exc=%s" % (
         c["path"], c["query"], c["app"], res["exc"], res["status"], res["cdesc"], res["body_exc"]))
